@@ -126,6 +126,11 @@ def gen_C20(tier, seed):
                 near.append("@ eq 1 1 5")
             b.case(elem, [root] + near)
             b.case(elem, [root, "@ into_box", "@ dump"])
+            # clone_from a source with fewer / as many / more cells, an empty source, into an empty array
+            for (c2, r2) in [(c, r), (r, c), (c + 1, r), (max(c - 1, 0), max(r - 1, 0)) if c > 1 and r > 1 else (0, 0), (0, 0), (c + 2, r + 1)]:
+                if (c2 == 0) != (r2 == 0):
+                    continue
+                b.case(elem, [root, f"@ clone_from {c2} {r2} {fl(uniq(c2 * r2, 300))}", "@ dump", "@ lens"])
             for k in sorted(set([0, 1, c * r, c * r + 1])):
                 b.case(elem, [root, f"@ into_iter {k}", "@ dump"])
             for w in sample(rng, valid_windows(c, r), 12 if tier == "quick" else 60):
@@ -170,6 +175,16 @@ def gen_C02(tier, seed):
         d = uniq(C * R, 100)
         root = f"@ from_vec {C} {R} {fl(d)}"
         recvs = recv_variants(rng, C, R, 3 if tier == "quick" else 10)
+        if C * R > 0 and C * R <= 25:
+            # the accessors after a call that failed half-way (caller code panicked inside it): the array must still address its cells
+            for bad in [f"@ clone_from {C + 1} {R + 1} {fl(uniq((C + 1) * (R + 1), 700))} !clone:{C + 1}",
+                        f"@ clone_from 1 1 709 !clone:0", f"@ insert_row {R // 2} {C} {','.join(['7'] * (C - 1) + ['!'])}",
+                        f"@ insert_col {C // 2} {R} {','.join(['!'] + ['7'] * (R - 1))}", f"@ remove_col 0 n leak", f"@ remove_row {R - 1} - leak"]:
+                lines = [root, bad, "@ size", "@ dump"]
+                for c in range(C + 1):
+                    for r in range(R + 1):
+                        lines += [f"@ get {c} {r}", f"@ rowget {r} {c}", f"@ colget {c} {r}"]
+                b.case("cell", lines)
         for rv in recvs:
             mut = "w(" not in rv
             lines = [root, f"{rv} size", f"{rv} dumppos", f"{rv} dump"]
@@ -954,6 +969,13 @@ def gen_C11(tier, seed):
     for (C, R) in shapes(maxd):
         d = uniq(C * R, 100)
         root = f"@ from_vec {C} {R} {fl(d)}"
+        # clone_from (the Clone impl is caller-visible API too): the j-th element clone panics, sources smaller / larger than the array
+        for (c2, r2) in [(C, R), (C + 1, R + 1), (1, 1), (0, 0), (R, C)]:
+            if (c2 == 0) != (r2 == 0) or c2 * r2 > 20:
+                continue
+            n2 = c2 * r2
+            for j in sorted(set([0, 1, n2 // 2, max(n2 - 1, 0), n2])):
+                b.case("cell", [root, f"@ clone_from {c2} {r2} {fl(uniq(n2, 400))} !clone:{j}", "@ dump", "@ lens", f"@ push_row {C} {fl(uniq(C, 500))}", "@ dump"])
         for elem in ["cell", "zst", "u32"]:
             # iterator faults: panic at every position, lying lengths
             for kind, dim, n in [("row", R, C), ("col", C, R)]:
@@ -1130,13 +1152,14 @@ def hist_ops(rng, C, R, k, elem="u32"):
            f"@ sort_by_row {rr}", f"@ sort_by_col {cc}", f"@ sort_by_col_key {cc}", f"@ sort_row_ord {rr}",
            f"@ clone_from_slice {fl(uniq(n if rng.random() < 0.8 else n + 1, k))}",
            f"@ set {cc} {rr} {k}", f"@ rowset {rr} {cc} {k}", f"@ colset {cc} {rr} {k}", "@ clone",
+           f"@ clone_from {C} {R} {fl(uniq(n, k))}",
            f"@v(0,0,{C},{R}) fill {k}"]
     if elem != "zst":
         ops += [f"@ rows_mut n,b,f", f"@ cells_mut N1,B1", "@ col_mut 0 n,L"]     # positions are not printed for zero-sized elements
     return (rng.choice(ops), (C, R))
 
 
-FAULTABLE = {"remove_row": "drop", "remove_col": "drop", "pop_row": "drop", "pop_col": "drop", "clear": "drop", "fill": "clone",
+FAULTABLE = {"clone_from": "clone", "remove_row": "drop", "remove_col": "drop", "pop_row": "drop", "pop_col": "drop", "clear": "drop", "fill": "clone",
              "clone_from_slice": "clone", "set": "drop", "rowset": "drop", "colset": "drop", "insert_row": "drop", "insert_col": "drop"}
 
 
